@@ -1282,3 +1282,121 @@ def rule_rvv_tpl_reinit(ctx, R):
         R.check(bool(wr), 'x%d (advanced by `addi x%d, x%d, %d` in generated code)' % (r_, r_, r_, imm), 'src/jit_compiler_rv64_vector_static.S:%d' % lines[head][0],
                 expected='loaded between the loop head (line %d) and the generated instructions (line %d)' % (lines[head][0], lines[gen_i[0]][0]),
                 found='`%s` at line %d' % (wr[0][1], wr[0][0]) if wr else 'not written inside the loop: every group of items after the first starts from the value the previous group left (generator: %s)' % where)
+
+
+# ---------------------------------------------------------------------------------------------------------------------------
+# [RVV-SS-RCPPOOL] dataset-init generator of the vector back-end: the n-th reciprocal of a key is loaded from where it was stored
+
+def rule_rvv_ss_rcp(ctx, R):
+    import slice as slc
+    F, hs = jit.handlers(ctx, 'rvv')
+    R.rule('RVV-SS-RCPPOOL', 'RV64 vector dataset-init generator, IMUL_RCP: for the n-th reciprocal of a key (n below the capacity of the literal area) the value is stored at literal slot n and the emitted `ld x5, off(x15)` reads that slot, '
+           'x15 being the literal pointer as advanced by the `addi x15, x15, 2040` words emitted so far and off the sign-extended 12-bit displacement; the slot lies inside the literal area; decided by running the address arithmetic of the case for n = 0, 1, 2, ... in sequence', min_instances=60)
+    R.saw(config='K3', unit='src/jit_compiler_rv64_vector.cpp')
+    gs = [f for f in F.in_file('jit_compiler_rv64_vector.cpp') if f['name'] == 'generateDatasetInitVectorRV64']
+    if len(gs) != 1:
+        raise AnalysisBroken('RVV-SS-RCPPOOL: generateDatasetInitVectorRV64 not found')
+    g = gs[0]
+    R.saw(fn=g['q'])
+    where = '%s:%d' % (g['file'], g['line'])
+    sws = [x for x in walk(g['body']) if x['k'] == 'Switch']
+    if len(sws) != 1:
+        raise AnalysisBroken('RVV-SS-RCPPOOL: switch over the instruction kind not found')
+    types = F.enum('randomx::SuperscalarInstructionType')
+    stmts = sws[0]['b']['s'] if sws[0]['b']['k'] == 'Compound' else [sws[0]['b']]
+    body, active = [], False
+    for st in stmts:
+        x = st
+        labs = []
+        while x['k'] in ('Case', 'Default'):
+            labs.append(val(x['lhs']) if x['k'] == 'Case' else None)
+            x = x['sub']
+        if labs:
+            active = types['IMUL_RCP'] in labs
+        if active:
+            if x['k'] == 'Break':
+                active = False
+                continue
+            body.append(x)
+    if not body:
+        raise AnalysisBroken('RVV-SS-RCPPOOL: IMUL_RCP case not found')
+    comp = {'k': 'Compound', 's': body}
+    # locals of the generator used by the case: the two literal pointers (the one memcpy writes through = cursor), the code cursor, dst, imm32
+    cursor = base = pcode = None
+    for c in calls(comp):
+        if c.get('name') == 'memcpy' and val(c['a'][2]) == 8:
+            cursor = ref_id_any(c['a'][0])
+        if c.get('name') == 'memcpy' and val(c['a'][2]) == 4:
+            pcode = ref_id_any(c['a'][0])
+    for x in walk(comp):
+        if x['k'] == 'Bin' and x['op'] == '-' and ref_id_any(x['l']) == cursor and ref_id_any(x['r']) is not None:
+            base = ref_id_any(x['r'])
+    if None in (cursor, base, pcode):
+        raise AnalysisBroken('RVV-SS-RCPPOOL: literal cursor / base / code cursor not identified')
+    # capacity of the literal area in the template
+    cap = None
+    lines = _asm_lines(os.path.join(ctx.repo, 'src', 'jit_compiler_rv64_vector_static.S'))
+    for i, (n_, t_) in enumerate(lines):
+        m = re.match(r'^DECL\(randomx_riscv64_vector_sshash_imul_rcp_literals\)\s*:\s*(.*)$', t_)
+        if m:
+            rest = m.group(1) or (lines[i + 1][1] if i + 1 < len(lines) else '')
+            mm = re.match(r'^\.fill\s+(\d+)\s*,\s*8\s*,', rest)
+            if mm:
+                cap = int(mm.group(1))
+    if cap is None:
+        raise AnalysisBroken('RVV-SS-RCPPOOL: capacity of the literal area not found in the template')
+    LIT, CODE = 0x40000000, 0x50000000
+
+    class H(_RvvH):
+        def call(self, n, args, env, sl):
+            nm = n.get('name') or ''
+            if nm == 'memcpy' and len(args) == 3 and isinstance(args[1], tuple) and args[0] is not None and args[2] == 8:
+                self.lit_stores.append(args[0])
+                return ('value', args[0])
+            if n.get('opcall') == '[]' or nm == 'operator[]':
+                return ('value', 0x1234567890ABCDEF)
+            return _RvvH.call(self, n, args, env, sl)
+    ids = {}
+    for x in walk(g['body']):
+        if x['k'] == 'Decl':
+            for d in x['d']:
+                ids[d['name']] = d['id']
+    env = {cursor: LIT, base: LIT, pcode: CODE}
+    for nm_, v_ in (('dst', 3), ('src', 1), ('imm32', 7), ('modShift', 0)):
+        if nm_ in ids:
+            env[ids[nm_]] = v_
+    x15 = LIT
+    nbad = 0
+    for n in range(cap):
+        hk = H(F, 3, 1, 7)
+        sl = slc.Slice(F, hk, {}, limit=5000, what='RVV-SS-RCPPOOL')
+        try:
+            sl.run(comp, env)
+        except slc.NeedChoice as e:
+            raise AnalysisBroken('RVV-SS-RCPPOOL: condition %s is not decided by the literal count' % e.key)
+        why = []
+        loads = []
+        for addr, size, w in hk.words:
+            if size != 4 or w is None:
+                continue
+            if w == 0x7F878793 or ((w & 0x7f) == 0x13 and ((w >> 12) & 7) == 0 and ((w >> 7) & 31) == 15 and ((w >> 15) & 31) == 15):
+                x15 += sx(w >> 20, 12)
+            elif (w & 0x7f) == 0x03 and ((w >> 12) & 7) == 3 and ((w >> 15) & 31) == 15:
+                loads.append(x15 + sx(w >> 20, 12))
+        if len(hk.lit_stores) != 1:
+            why.append('%d literal stores' % len(hk.lit_stores))
+        else:
+            a = hk.lit_stores[0]
+            if a != LIT + 8 * n:
+                why.append('stored at slot %s' % ((a - LIT) / 8.0))
+            if not (LIT <= a and a + 8 <= LIT + 8 * cap):
+                why.append('outside the %d-entry literal area' % cap)
+            if loads != [a]:
+                why.append('the emitted load reads %s' % (['slot %s' % ((l_ - LIT) / 8.0) for l_ in loads] or 'nothing'))
+        if why:
+            nbad += 1
+        if why or n % 8 == 0 or n in (254, 255, 256, 257, 510, 511):
+            R.check(not why, 'rvv dataset-init reciprocal %d' % n, where, expected='stored in slot %d and loaded from slot %d' % (n, n), found='; '.join(why) or 'as expected')
+        if nbad > 8:
+            break
+    R.extra['rvv_ss_literal_capacity'] = cap
